@@ -113,8 +113,12 @@ def run(rep, tier):
                 if m is not None:
                     report_prim(rep, tname, m, v, f'Serialize for Any emits {[e[0] for e in ev]} instead of one {tname} event with the same value')
         finish_engine(rep, it)
-    run_visitor_identity(rep, prog, ser_any[0])
-    run_strings(rep, prog, new, into, ser_any[0])
+    with rep.part('visitor identity'):
+        run_visitor_identity(rep, prog, ser_any[0])
+    with rep.part('strings'):
+        run_strings(rep, prog, new, into, ser_any[0])
+    with rep.part('integer map keys'):
+        run_key_coercion(rep, prog, new)
     # twins
     ops = TWIN_OPS
     res = replay(ops)
@@ -124,7 +128,70 @@ def run(rep, tier):
             rep.violation('C13:native-twin', f'{o}: native {r}', {'op': o, 'native': r})
     rep.assumptions += ['serde primitive Serialize/Deserialize impls by contract (one serialize_T call; visitors accept in-range integers of any width; 128-bit methods default to "not supported" unless overridden)',
                         'OrderedFloat(v).0 == v']
-    rep.outside += ['sequences, maps (BTreeMap<Any, Any> ordering), structs and enum variants inside Any; Base64 coercion of bytes; deeper trees']
+    rep.outside += ['sequences, map values and non-integer keys (BTreeMap<Any, Any> ordering), structs and enum variants inside Any; Base64 coercion of bytes; deeper trees']
+
+
+KEY_OPS = [{'op': 'any_key', 'ty': 'i128', 'n': str(-2**127)}, {'op': 'any_key', 'ty': 'u128', 'n': str(2**128 - 1)}, {'op': 'any_key', 'ty': 'u128', 'n': str(2**64)},
+           {'op': 'any_key', 'ty': 'i128', 'n': str(2**63)}, {'op': 'any_key', 'ty': 'i64', 'n': str(-2**63)}, {'op': 'any_key', 'ty': 'u64', 'n': str(2**64 - 1)},
+           {'op': 'any_key', 'ty': 'u8', 'n': '255'}, {'op': 'any_key', 'ty': 'i8', 'n': '-128'}, {'op': 'any_key', 'ty': 'i32', 'n': '0'}]
+
+
+def battery_keys():
+    return [f'{o}: {r}' for o, r in zip(KEY_OPS, replay(KEY_OPS)) if not r.get('same')]
+
+
+def run_key_coercion(rep, prog, new):
+    """map keys inside Any: a document key is text; read as an integer-keyed map it is parsed back by KeyDeserializer::deserialize_<W>.
+    For every width W and every value n of W: the key text Display(n) (std contract: parse is the inverse of Display -- ghost record)
+    reaches the visitor as visit_<W>(n)."""
+    from mirsym.models_std import ghost_int_text
+    for w in WIDTHS:
+        it = mk(prog)
+        dec = Decider(rep, it)
+        st = St()
+        bits = INT_BITS[w]
+        n = z3.BitVec('key_' + w, bits)
+        text = ghost_int_text(it, st, n, bits, w[0] == 'i')
+        kd = [k for k in find_fns(prog, 'deserialize_' + w, inpath='conjure_object::any::de::<impl') if 'KeyDeserializer' in prog.fns[k].args[0][1]]
+        if len(kd) != 1:
+            raise Inconclusive(f'C13 harness: KeyDeserializer::deserialize_{w} not unique: {kd}')
+        np_ = delivered = 0
+        for s1, r1 in it.run(new, [st.ref(text)], st, {'T': ('ref', False, ('path', 'str', ()))}):
+            okp = it.payload(r1, 'Ok') if not is_abnormal(r1) else None
+            if okp is None:
+                rep.structural(f'C13:key:new:{w}', f'Any::new(&str) {r1!r}', {}, battery_keys)
+                continue
+            key = Agg('conjure_object::any::de::KeyDeserializer', (okp.fields[0],))
+            for s2, r2 in it.run(kd[0], [key, Agg('PrimVisitor', (w,))], s1, {'V': ('path', 'PrimVisitor', ())}):
+                np_ += 1
+                rep.states += 1
+                if is_abnormal(r2):
+                    rep.structural(f'C13:key:{w}', f'KeyDeserializer::deserialize_{w} {r2!r}', {}, battery_keys)
+                    continue
+                back = it.payload(r2, 'Ok')
+                bad = it.variant_of(r2, 'Err')
+                if back is not None:
+                    bad = z3.Or(bad, back.fields[0] != n)
+                m = dec.decide(f'key:{w}:path{np_}:text-key-of-n-is-visited-as-n', s2, bad, width='full')
+                if m is not None:
+                    x = m.eval(n, True).as_long()
+                    if w[0] == 'i' and x >= 1 << (bits - 1):
+                        x -= 1 << bits
+                    op = {'op': 'any_key', 'ty': w, 'n': str(x)}
+                    r, r_rel = replay([op])[0], replay([op], 'release')[0]
+                    rep.replayed += 1
+                    if not r.get('same') and not r_rel.get('same'):
+                        rep.violation(f'C13:key:{w}', f'a JSON object key {x} carried by Any cannot be read back as a {w} map key: native {r}', {'op': op, 'native': r})
+                    else:
+                        rep.inconc(f'model mismatch C13 key {w} {x}: native {r}')
+                else:
+                    delivered += 1
+        if not delivered:
+            rep.inconc(f'vacuity: C13 key coercion {w} never delivers')
+        finish_engine(rep, it)
+    for fail in battery_keys():
+        rep.violation('C13:native-twin:key', f'native twin: {fail}', {'native': fail})
+    rep.replayed += len(KEY_OPS)
 
 
 def run_visitor_identity(rep, prog, ser_fn):
